@@ -67,7 +67,8 @@ def drive(s, peers, plan, run, mode, nsteps, snaps=None):
         for i in range(nsteps):
             msg = s.Step(cost if first else None, callback=cb)
             first = False
-            if snaps is not None: snaps.append(ens_snap(s))
+            if snaps is not None:
+                snaps.append(ens_snap(s)); snaps[-1]['_nevals'] = len(run.evals)
             if msg: break
     return ens_snap(s)
 
@@ -82,7 +83,7 @@ def gen_ensemble_plan(rng, seed, tier, prop):
             while numpy.prod(nb) > 9: nb[rng.randrange(dim)] = 1
             plan['nbins'] = nb
         else:
-            plan['nbins'] = rng.choice([1, 2, 3, 4, 6])
+            plan['nbins'] = rng.choice([1, 2, 3, 4, 5, 6, 7, 8])      # (primes can only be binned along one axis)
     else:
         plan['npts'] = rng.choice([1, 2, 3, 4, 6, 8])
     plan['cost'] = gen.gen_cost(rng, dim, ['quad', 'quad', 'rosen', 'abs', 'quant', 'maxabs'])
@@ -101,10 +102,15 @@ def gen_ensemble_plan(rng, seed, tier, prop):
         plan['constraint'] = gen.gen_constraint(rng, dim, box)
         if not gen.compatible(plan['constraint'], box): plan['constraint'] = None
     if rng.random() < 0.3: plan['penalty'] = gen.gen_penalty(rng, dim)
-    if rng.random() < 0.5:
-        t = gen.gen_simple_term(rng, plan['nested'])
+    if rng.random() < 0.65:
+        # conditions that some members meet several ensemble steps before others do (a finished member is then
+        # carried along, and stepped again, while the rest still run)
+        if plan['nested'] == 'NM' and rng.random() < 0.5:
+            t = {'t': 'CRT', 'kw': {'xtol': rng.choice([1e-2, 0.05, 0.1, 0.3]), 'ftol': rng.choice([1e-2, 0.1, 0.3, 1.0])}}
+        else:
+            t = gen.gen_simple_term(rng, plan['nested'])
         if t: plan['termination'] = t
-    plan['limits'] = [rng.choice([2, 3, 5, 8, 12, 20]), rng.choice([None, None, 40, 100, 400])]
+    plan['limits'] = [rng.choice([2, 3, 5, 8, 12, 20, 30, 45]), rng.choice([None, None, 40, 100, 400])]
     plan['evalmon'] = rng.random() < 0.4
     plan['nsteps'] = rng.randint(2, 10)
     return plan
@@ -112,7 +118,8 @@ def gen_ensemble_plan(rng, seed, tier, prop):
 def map_specs(rng, tier, n=3):
     pool = [{'mode': 'serial'}, {'mode': 'reversed'}, {'mode': 'shuffled'},
             {'mode': 'threads', 'workers': rng.choice([1, 2, 3, 8])},
-            {'mode': 'threads', 'workers': rng.choice([2, 4, 8]), 'preempt_lines': rng.choice([0.002, 0.01, 0.05])},
+            {'mode': 'threads', 'workers': rng.choice([2, 4, 8]),
+             'preempt_lines': rng.choice([0.001, 0.003, 0.01] if tier == 'quick' else [0.002, 0.01, 0.05])},
             {'mode': 'process'}]
     if tier == 'quick':
         specs = rng.sample(pool, n)
